@@ -274,6 +274,13 @@ def run_one(kind, inp):
     try:
         if kind == "pair":
             return check_pair([tuple(p) for p in inp["a"]], [tuple(p) for p in inp["b"]])
+        if kind == "history":
+            # the answer to a query does not depend on which queries were put before it: the pairs are measured in order, in one process
+            for k, (a, b) in enumerate(inp["pairs"]):
+                msg = check_pair([tuple(p) for p in a], [tuple(p) for p in b])
+                if msg:
+                    return "query %d of the sequence: %s" % (k + 1, msg)
+            return None
         return check_paths([[tuple(p) for p in s] for s in inp["a"]], [[tuple(p) for p in s] for s in inp["b"]])
     except RecursionError:
         return "the distance query does not terminate (recursion limit reached)"
@@ -300,7 +307,21 @@ def search(ctx, budget):
     seen = set()
     nontriv = 0
     for i in range(n):
-        if i % 6 != 5:
+        if i % 12 == 7:
+            # look-alike operands measured one after the other: same degree, control points identical except that some coordinates differ
+            # in a way a hash-based shortcut may not see (in CPython hash(-1.0) == hash(-2.0), hash(0.0) == hash(-0.0), hash(2**61 - 1) wraps)
+            a, b = rand_pair(rng)
+            a = [(float(round(x)) % 7 - 3, float(round(y)) % 7 - 3) for x, y in a]
+            j = rng.randrange(len(a))
+            a[j] = (-1.0, a[j][1]) if rng.random() < 0.7 else (a[j][0], -1.0)
+            if len(set(a)) < 2:
+                a[(j + 1) % len(a)] = (a[j][0] + 2.0, a[j][1] + 3.0)
+            twin = [tuple(-2.0 if c == -1.0 else c for c in p) for p in a]
+            b = [(x + 40.0, y) for x, y in b] if rng.random() < 0.5 else b
+            inp = {"pairs": [(a, b), (twin, b), (a, b)] if rng.random() < 0.5 else [(twin, b), (a, b)]}
+            kind = "history"
+            nt = True
+        elif i % 6 != 5:
             a, b = rand_pair(rng)
             inp = {"a": a, "b": b}
             kind = "pair"
